@@ -6,9 +6,12 @@ pid, n = sys.argv[1], sys.argv[2]
 checks = [pid]
 if "--checks" in sys.argv:
     checks = sys.argv[sys.argv.index("--checks") + 1].split(",")
-src = f"/tmp/seedout/{pid}/{n}"
+base = sys.argv[sys.argv.index("--src") + 1] if "--src" in sys.argv else "/tmp/seedout"
+offset = int(sys.argv[sys.argv.index("--offset") + 1]) if "--offset" in sys.argv else 0
+src = f"{base}/{pid}/{n}"
 wt = f"/tmp/confirm_wt_{pid}_{n}"
-out = {"id": f"{pid}-{n}", "property": pid}
+label = f"{pid}-{int(n) + offset}"
+out = {"id": label, "property": pid}
 
 
 def sh(cmd, **kw):
@@ -59,7 +62,7 @@ if out.get("confirmed") and "--no-checks" not in sys.argv:
         sh("rm -f /verif/replay/*.json")
     out["caught_by"] = [c for c, v in out["checks"].items() if v["exit"] == 1]
 if out.get("confirmed"):
-    dst = f"/verif/seeded/{pid}-{n}"
+    dst = f"/verif/seeded/{label}"
     os.makedirs(dst, exist_ok=True)
     for f in ("patch.diff", "demo.py"):
         shutil.copy(os.path.join(src, f), dst)
